@@ -36,3 +36,66 @@ package types
 //@   ensures @exact_rate UnixNs(nowTime) < UnixNs(depositZeroTime) ==> Amt(claim) == min(Amt(deposit), flowRate * secs)
 //@   ensures @conserve Amt(claim) + Amt(rem) == Amt(deposit) && Amt(rem) >= 0
 //@   ensures @denoms claim.Denom == deposit.Denom && rem.Denom == deposit.Denom
+
+// ---------------------------------------------------------------- store keys (byte level)
+
+//@ func GetStreamsByReceiverKey(receiverAddr) (key)
+//@   props C18 C20
+//@   requires 1 <= len(receiverAddr) && len(receiverAddr) <= 255
+//@   nopanic
+//@   ensures len(key) == 2 + len(receiverAddr) && key[0] == 17 && key[1] == len(receiverAddr) && key != nil
+//@   ensures forall i int :: {receiverAddr[i]} 0 <= i && i < len(receiverAddr) ==> key[2+i] == receiverAddr[i]
+//@   ensures forall j int :: {key[j]} 2 <= j && j < 2 + len(receiverAddr) ==> key[j] == receiverAddr[j-2]
+
+//@ func GetStreamKey(receiverAddr, senderAddr) (key)
+//@   props C18 C20
+//@   requires 1 <= len(receiverAddr) && len(receiverAddr) <= 255
+//@   requires 1 <= len(senderAddr) && len(senderAddr) <= 255
+//@   nopanic
+//@   ensures len(key) == 3 + len(receiverAddr) + len(senderAddr) && key != nil
+//@   ensures key[0] == 17 && key[1] == len(receiverAddr) && key[2+len(receiverAddr)] == len(senderAddr)
+//@   ensures forall i int :: {receiverAddr[i]} 0 <= i && i < len(receiverAddr) ==> key[2+i] == receiverAddr[i]
+//@   ensures forall i int :: {senderAddr[i]} 0 <= i && i < len(senderAddr) ==> key[3+len(receiverAddr)+i] == senderAddr[i]
+//@   ensures forall j int :: {key[j]} 2 <= j && j < 2 + len(receiverAddr) ==> key[j] == receiverAddr[j-2]
+//@   ensures forall j int :: {key[j]} 3 + len(receiverAddr) <= j && j < len(key) ==> key[j] == senderAddr[j-3-len(receiverAddr)]
+
+//@ func AddressesFromStreamKey(key) (r, s)
+//@   props C18 C20
+//@   requires len(key) >= 3 && len(key) >= 3 + key[1] && len(key) >= 3 + key[1] + key[2+key[1]]
+//@   nopanic
+//@   ensures len(r) == key[1] && len(s) == key[2+key[1]]
+//@   ensures forall i int :: {r[i]} 0 <= i && i < len(r) ==> r[i] == key[2+i]
+//@   ensures forall i int :: {s[i]} 0 <= i && i < len(s) ==> s[i] == key[3+key[1]+i]
+
+//@ func FirstAddressFromStreamStoreKey(key) (a)
+//@   props C18 C20
+//@   requires len(key) >= 1 && len(key) >= 1 + key[0]
+//@   nopanic
+//@   ensures len(a) == key[0]
+//@   ensures forall i int :: {a[i]} 0 <= i && i < len(a) ==> a[i] == key[1+i]
+
+//@ lemma stream_key_injective [C18]
+//@   vars r1 Addr, s1 Addr, r2 Addr, s2 Addr
+//@   call k1 := GetStreamKey(r1, s1)
+//@   call k2 := GetStreamKey(r2, s2)
+//@   assume bytesEq(k1, k2)
+//@   show len(r1) == len(r2)
+//@   show bytesEq(r1, r2)
+//@   show bytesEq(s1, s2)
+
+//@ lemma stream_key_roundtrip [C18 C20]
+//@   vars r Addr, s Addr
+//@   call k := GetStreamKey(r, s)
+//@   call (r2, s2) := AddressesFromStreamKey(k)
+//@   show bytesEq(r2, r) && bytesEq(s2, s)
+
+//@ lemma stream_key_prefix [C18 C20]
+//@   vars r Addr, s Addr
+//@   call k := GetStreamKey(r, s)
+//@   call p := GetStreamsByReceiverKey(r)
+//@   show len(p) <= len(k) && forall i int :: 0 <= i && i < len(p) ==> k[i] == p[i]
+
+//@ lemma stream_key_vs_params [C18]
+//@   vars r Addr, s Addr
+//@   call k := GetStreamKey(r, s)
+//@   show k[0] != 1
